@@ -35,6 +35,10 @@ CHECKS = {
          "groupings may differ between hash orders, each result must be valid; script-owned UTxOs are expected to be refused; sampling"),
  "C16": ("seeded search over three actors: collection histories for 10 set-like types (add with repeats, decode from harness-written bytes repeating elements in tagged/untagged/definite/indefinite/wide encodings, from_json with repeats, clone, restart from bytes/hex/JSON) against a first-insertion-dedup vector model; asset maps filled in seeded permutations read back for canonical key order; wallet sessions whose every successful build is repeated on the unchanged builder and clones under fresh hash keys and compared byte for byte",
          "two builders filled the same way are not compared (the statement speaks of rebuilding an unchanged builder); the stand-alone Mint list type is insertion ordered by design and only its per-policy names are judged; sampling"),
+ "C03": ("seeded search over wallet sessions of a profile that enables every feature (all certificate kinds, all governance actions incl. parameter updates, votes, withdrawals, mint, all output forms, all witness kinds, the three auxiliary-data shapes) plus create_send_all calls; every emitted transaction, as built and again after signing, is validated byte by byte by a strict schema-directed Conway validator that shares no code with the library or cbor_event",
+         "claimed for transactions the builder and the batcher emit (typed values that never occur in a built transaction are not claimed); harness transcription of the Conway CDDL; key order of struct-like maps not judged; sampling"),
+ "C04": ("seeded search over multi-party signing histories: a transaction built by a simulated wallet session, optionally re-encoded by a foreign peer (wide heads, indefinite containers, chunked byte strings, permuted maps, untagged sets), is loaded by up to 5 signer nodes from bytes or hex, signed through both APIs with key / Icarus / Daedalus keys, restarted, forwarded in seeded order, delivered twice, merged witness by witness; after every step every node's copy is checked against the original byte spans, Blake2b-256 of the original body and Ed25519 verification; every datum span is relayed through the PlutusData codec",
+         "encodings the decoder rejects are counted, not claimed; Ed25519 determinism is used to know the expected witness; quantifier covers add-signature operations; sampling"),
 }
 def main():
     man = {"version":1,"setup_cmd":"./check build",
